@@ -838,6 +838,17 @@ pub fn run_case<F: Family>(it: &mut Interp<F>, name: &str, seed: u64, cfg: &GenC
                 continue;
             }
         }
+        // malformed input: in the `mutate` profile one op in twelve is a mutated round trip on top of
+        // the share the op mix gives
+        if multi && serde_on && cfg.profile.contains("mutate") && g.rng.below(12) == 0 {
+            let src = g.rng.below(3) as usize;
+            if it.worlds[src].is_some() && src != w {
+                let mutation = vec![format!("seed={}", g.rng.next() % 1_000_000)];
+                it.exec(w, &Op::Serde { src, rows: g.rng.below(2) == 0, e: g.epoch(), front: "tokens".into(), mutation });
+                *it.op_hist.entry("serde").or_insert(0) += 1;
+                continue;
+            }
+        }
         // "drained" (C10/C06/C16): a world that lost all its entities and was then shrunk has no table
         // left but still carries slot generations and a free queue; copy it, compare, use both
         if multi && g.rng.below(100) < 2 {
@@ -928,6 +939,46 @@ pub fn run_case<F: Family>(it: &mut Interp<F>, name: &str, seed: u64, cfg: &GenC
         if cfg.profile.contains("sched") && F::NAME == "Reg4" && g.rng.below(100) < 22 {
             let all = crate::gen_sched::schedules();
             let s = all[g.rng.below(all.len() as u64) as usize].0;
+            // a third of the time the schedule runs on a purpose-built SPARSE world: a fresh world
+            // holding two to four tables chosen among, for every task, the components its views /
+            // entry views / `has` filters name, alone or united with another task's.  Which tasks may
+            // run together is decided per table, and one extra table often hides a wrong decision.
+            if g.rng.below(3) == 0 {
+                let comps_of = |t: &str| -> Vec<u8> {
+                    let mut c: Vec<u8> = Vec::new();
+                    let f: Vec<&str> = t.split(':').collect();
+                    for field in [f.get(1), f.get(2), f.get(4)].into_iter().flatten() {
+                        for tok in field.split(|ch| ch == ',' || ch == '_') {
+                            let digits: String = tok.chars().filter(|ch| ch.is_ascii_digit()).collect();
+                            if tok.starts_with("not") || digits.is_empty() { continue; }
+                            if let Ok(k) = digits.parse::<u8>() { if (k as usize) < F::N && !c.contains(&k) { c.push(k); } }
+                        }
+                    }
+                    c
+                };
+                let tasks: Vec<Vec<u8>> = s.split('|').map(comps_of).collect();
+                let mut cand: Vec<Vec<u8>> = Vec::new();
+                for (i, a) in tasks.iter().enumerate() {
+                    if !a.is_empty() { cand.push(a.clone()); }
+                    for b in tasks.iter().skip(i + 1) {
+                        let mut u = a.clone();
+                        for k in b { if !u.contains(k) { u.push(*k); } }
+                        if !u.is_empty() { cand.push(u.clone()); cand.push(u); }   // unions twice as likely
+                    }
+                }
+                if !cand.is_empty() {
+                    it.exec(w, &Op::New { res: (0..nres).map(|_| g.val()).collect() });
+                    let k = 2 + g.rng.below(3) as usize;
+                    for _ in 0..k {
+                        let sh = cand[g.rng.below(cand.len() as u64) as usize].clone();
+                        for _ in 0..(1 + g.rng.below(2)) {
+                            let ids = sh.iter().map(|_| g.val()).collect();
+                            it.exec(w, &Op::Insert { shape: sh.clone(), ids });
+                        }
+                    }
+                    it.bump("sched:sparse-world");
+                }
+            }
             let e = g.epoch();
             *it.op_hist.entry("sched").or_insert(0) += 1;
             let r = it.exec(w, &Op::Raw("sched".into(), vec![s.to_string(), e.to_string(), "2".to_string()]));
